@@ -225,6 +225,11 @@ func (p *Parser) ParseExpressionWithPrecedence(precedence int) ast.Expression {
 
 func (p *Parser) ParseRemainingExpressionWithPrecedence(left ast.Expression, precedence int) ast.Expression {
 	for p.PeekToken.Type != token.SEMICOLON && precedence < p.peekPrecedence() {
+		// Restricted production: a postfix ++/-- must be on the same line as its
+		// operand; after a line break it starts a new statement (prefix operator)
+		if p.PeekToken.AfterNewline && (p.PeekToken.Type == token.INCREMENT || p.PeekToken.Type == token.DECREMENT) {
+			return left
+		}
 		// Smart semicolon insertion: prevent LPAREN and LBRACKET after newline from continuing expression
 		// https://eslint.org/docs/latest/rules/no-unexpected-multiline
 		if p.smartSemicolons && p.PeekToken.AfterNewline {
